@@ -170,7 +170,8 @@ func genAnyEntry(r *rand.Rand, depth int) V {
 	case 4:
 		return V{T: 'i', I: int64(r.Intn(50))}
 	case 5:
-		return V{T: 'O', Op: []string{"c1", "c6", "c0", "c9", fmt.Sprintf("u1:%s:%s", hx("~="), hx("approx")), fmt.Sprintf("u2:%s:%s", hx(""), hx("c")), "-", "z", "y", "w"}[r.Intn(10)]}
+		return V{T: 'O', Op: []string{"c1", "c6", "c0", "c9", fmt.Sprintf("u1:%s:%s", hx("~="), hx("approx")), fmt.Sprintf("u2:%s:%s", hx(""), hx("c")), "-", "z", "y", "w",
+			fmt.Sprintf("v1:%s:%s", hx("~~"), hx("list"))}[r.Intn(11)]} // v1: an operator of a type that cannot be compared with ==  (slice-backed)
 	case 6:
 		// typed nil pointer; pointers to zero-valued native instances; pointers to nil pointers
 		return []V{{T: 'o', Ty: 5, ID: 1}, {T: 'o', Ty: 22, ID: 1}, {T: 'o', Ty: 23, ID: 1}, {T: 'o', Ty: 24, ID: 1}, {T: 'o', Ty: 25, ID: 1}, {T: 'o', Ty: 26, ID: 1}, {T: 'o', Ty: 20, ID: 3}}[r.Intn(7)]
@@ -207,7 +208,7 @@ func genAnyRow(r *rand.Rand, depth int) V {
 				if r.Intn(3) == 0 {
 					row.Xs = append(row.Xs, genAnyEntry(r, depth))
 				} else {
-					row.Xs = append(row.Xs, V{T: 'O', Op: []string{"c1", "c5", "c0", "-", "z", "y"}[r.Intn(6)]})
+					row.Xs = append(row.Xs, V{T: 'O', Op: []string{"c1", "c5", "c0", "-", "z", "y", fmt.Sprintf("v1:%s:%s", hx("~~"), hx("list")), fmt.Sprintf("u1:%s:%s", hx("~="), hx("approx"))}[r.Intn(8)]})
 				}
 			default:
 				row.Xs = append(row.Xs, genAnyEntry(r, depth))
@@ -278,6 +279,15 @@ func runAnyTrees(payload string) string {
 		_ = z.IsEqual(z)
 		_ = z.IsEqual(stackage.List())
 		_ = z.Len()
+		// ... against a twin: the same input, built independently, marshalled into a receiver built the same way
+		var z2 stackage.Stack
+		if parts[0] != "zero" {
+			v2, _ := parseV(strings.Fields(parts[0]))
+			z2 = BuildStack(v2)
+		}
+		in2, _ := parseV(strings.Fields(parts[1]))
+		_ = z2.Marshal(Build(in2).([]any)...)
+		_, _ = z.IsEqual(z2), z2.IsEqual(z)
 		// ... also against a stack of the same kind and length in which one position holds nil instead
 		if z.IsInit() {
 			for hole := 0; hole < z.Len() && hole < 4; hole++ {
